@@ -378,6 +378,9 @@ func runC19(c *eng.Ctx) {
 
 	// shared key agreement (R15.6)
 	runConfigKeyAgreement(c, "R15.6")
+	// ---- R15.8 (shared) the configuration keys this property's switches hang on reach their fields
+	ruleConfigWiring(c, "R15.8")
+
 }
 
 // jsonKeys enumerates the transitive JSON key paths of a struct type.
